@@ -514,4 +514,86 @@ theorem srcSubs_run (hot : Bool) (sub : Ctx) (ms : List (AnyM α)) (raw : List (
       | none => rw [run_hot_none sub ms raw hr]; rfl
       | some k => rw [run_hot_some sub ms raw k hr]; rfl
 
+/-! ### reading the counters of the instrumented composition -/
+
+def lastSubd : (ms : List (AnyM α)) → Cfg ms → Nat
+  | [], _ => 0
+  | [_], c => c.1.subd
+  | _ :: b :: rest, c => lastSubd (b :: rest) c.2
+
+theorem lastSeen_cons_tailI (x : AnyM α) (ms : List (AnyM α)) (c : Cfg (x :: tailI ms)) :
+    lastSeen (x :: tailI ms) c = lastSeen (tailI ms) c.2 := by
+  cases ms <;> rfl
+
+theorem lastSubd_cons_tailI (x : AnyM α) (ms : List (AnyM α)) (c : Cfg (x :: tailI ms)) :
+    lastSubd (x :: tailI ms) c = lastSubd (tailI ms) c.2 := by
+  cases ms <;> rfl
+
+theorem tail_tally (ms : List (AnyM α)) (c : Cfg (tailI ms)) (h : AllInv TallyInv (tailI ms) c) :
+    (tailCounters ms c).1 = (tailSeen ms c).map countStampedNext ∧
+    (tailCounters ms c).2 = (lastSubd (tailI ms) c, countNext (lastSeen (tailI ms) c)) := by
+  induction ms with
+  | nil =>
+    have h1 : [c.1.st.1, c.1.st.2] = [c.1.subd, countNext c.1.seen] := h.1 sound_after
+    injection h1 with ha hb
+    injection hb with hb _
+    exact ⟨rfl, Prod.ext ha hb⟩
+  | cons a rest ih =>
+    have hp : [(c.2.1.st : Nat)] = [countStampedNext c.2.1.seen] := h.2.1 sound_proc
+    injection hp with hp _
+    have ih' := ih c.2.2 h.2.2
+    refine ⟨?_, ?_⟩
+    · show (c.2.1.st : Nat) :: (tailCounters rest c.2.2).1 = countStampedNext c.2.1.seen :: (tailSeen rest c.2.2).map countStampedNext
+      exact hp ▸ ih'.1 ▸ rfl
+    · show (tailCounters rest c.2.2).2 = _
+      rw [ih'.2]
+      have e1 : lastSeen (a :: AnyM.proc :: tailI rest) c = lastSeen (tailI rest) c.2.2 := by
+        rw [show lastSeen (a :: AnyM.proc :: tailI rest) c = lastSeen (AnyM.proc :: tailI rest) c.2 from rfl,
+            lastSeen_cons_tailI]
+      have e2 : lastSubd (a :: AnyM.proc :: tailI rest) c = lastSubd (tailI rest) c.2.2 := by
+        rw [show lastSubd (a :: AnyM.proc :: tailI rest) c = lastSubd (AnyM.proc :: tailI rest) c.2 from rfl,
+            lastSubd_cons_tailI]
+      show _ = (lastSubd (a :: AnyM.proc :: tailI rest) c, countNext (lastSeen (a :: AnyM.proc :: tailI rest) c))
+      rw [e1, e2]
+
+theorem lastSubd_of_subds (ms : List (AnyM α)) (hne : ms ≠ []) (c : Cfg ms) (h : subds ms c = reachList ms) :
+    lastSubd ms c = 1 := by
+  induction ms with
+  | nil => exact absurd rfl hne
+  | cons a rest ih =>
+    cases rest with
+    | nil =>
+      simp only [subds, reachList, allSubscribe, if_true, List.cons.injEq, and_true] at h
+      exact h
+    | cons b rest' =>
+      simp only [subds, reachList, List.cons.injEq] at h
+      exact ih (by simp) c.2 (by simp only [subds, reachList, List.cons.injEq]; exact h.2)
+
+/-- the counters of one subscription of the instrumented composition, every chain, source
+    mode, script and cut -/
+theorem instrument_counters (hot : Bool) (sub : Ctx) (ms : List (AnyM α)) (raw : List (Notif α)) (cut : Option Nat) :
+    let r := run hot sub (instrument ms) raw cut
+    (counters ms r.cfg).subs = 1 ∧
+    (counters ms r.cfg).inN = countNext r.cfg.1.seen ∧
+    (counters ms r.cfg).outN = countNext r.out ∧
+    (counters ms r.cfg).lag = countNonNilNext r.cfg.1.seen ∧
+    (counters ms r.cfg).proc = (tailSeen ms r.cfg.2).map countStampedNext := by
+  intro r
+  have hall : AllInv TallyInv (instrument ms) r.cfg := tally_run hot sub (instrument ms) raw cut
+  have hb : [(r.cfg.1.st : Nat × Nat).1, (r.cfg.1.st : Nat × Nat).2] = [countNext r.cfg.1.seen, countNonNilNext r.cfg.1.seen] :=
+    hall.1 sound_before
+  injection hb with hb1 hb2
+  injection hb2 with hb2 _
+  have ht := tail_tally ms r.cfg.2 hall.2
+  have hout : r.out = lastSeen (instrument ms) r.cfg := out_eq_lastSeen hot sub (instrument ms) (endsAfter_instrument ms) raw cut
+  have hl : lastSeen (instrument ms) r.cfg = lastSeen (tailI ms) r.cfg.2 := lastSeen_cons_tailI _ ms r.cfg
+  have hsd : lastSubd (instrument ms) r.cfg = 1 :=
+    lastSubd_of_subds (instrument ms) (by simp [instrument]) r.cfg (subds_run hot sub (instrument ms) raw cut)
+  have hsd' : lastSubd (instrument ms) r.cfg = lastSubd (tailI ms) r.cfg.2 := lastSubd_cons_tailI _ ms r.cfg
+  refine ⟨?_, hb1, ?_, hb2, ht.1⟩
+  · show (tailCounters ms r.cfg.2).2.1 = 1
+    rw [ht.2, ← hsd', hsd]
+  · show (tailCounters ms r.cfg.2).2.2 = _
+    rw [ht.2, hout, hl]
+
 end Ro.Prom
